@@ -5,7 +5,7 @@
 //! polls / garbage collections, order of postponed deliveries from different senders, exact drop position) it follows
 //! what the implementation was observed to do and only checks that the choice is an allowed one.
 use crate::dsl::*;
-use crate::obs::{Ev, Post, Sample};
+use crate::obs::{Ev, Post, Sample, RK_ABORT, RK_DISCARD, RK_ENTER, RK_ENTER_ROOT, RK_EXIT, RK_POSTPONE, RK_ROOT_EXIT, RK_RUN};
 use std::collections::HashMap;
 
 #[derive(Clone, Debug, PartialEq, Eq)]
@@ -32,7 +32,7 @@ macro_rules! stats_struct {
 }
 stats_struct!(
     bodies, applies, deliveries, postponed, max_postponed_one_target, nested_replay, skipped_dead, skipped_dead_postponed, optional_taken, optional_skipped, polled_events, polled_in_tree, polled_reactions, payloads, payload_zero_listeners, payload_abort_release, doomed_insts, once_fired, once_retrigger_after_fire, revokes_applied, revoke_mid_dispatch, kills, kill_self, err_returns, excl_bodies, registrations, reg_dead_entity, slot_respawn, max_depth, roots, multi_kind_same_tree, sibling_reorder, frames, guaranteed_gc, guaranteed_poll, a1_ambiguous, ewr_bodies, ewr_nodata_ok, inserts_dead_at_apply, setifneq_equal, setifneq_diff, removal_reinsert_removal, sig_zero, entity_recursive_despawn, fifo_pairs_checked, sys_calls, reactors_per_key_ge7,
-    probes, ev_total
+    probes, ev_total, replayed
 );
 
 #[derive(Clone, Debug)]
@@ -118,6 +118,8 @@ enum Cause
     Mut(C, EntId),
     Rem(C, EntId),
     Despawn(EntId),
+    /// a polled reaction that was postponed before the spec could see which event it is for
+    PolledUnknown,
 }
 
 impl Cause
@@ -131,7 +133,7 @@ impl Cause
         match self
         {
             Cause::Manual => 0, Cause::SysEvent(..) => 1, Cause::Broadcast(..) => 2, Cause::EntityEvent(..) => 4, Cause::Resource(_) => 8,
-            Cause::Ins(..) => 16, Cause::Mut(..) => 32, Cause::Rem(..) => 64, Cause::Despawn(_) => 128,
+            Cause::Ins(..) => 16, Cause::Mut(..) => 32, Cause::Rem(..) => 64, Cause::Despawn(_) => 128, Cause::PolledUnknown => 0,
         }
     }
 }
@@ -148,6 +150,8 @@ struct Delivery
     /// (issuer, run) of the run whose command produced it, and a global sequence number
     sender: (u8, u32),
     seq: u64,
+    /// when postponed: the run number of the target's execution that blocked it
+    blocked_by: u32,
 }
 
 #[derive(Clone, Debug)]
@@ -163,16 +167,22 @@ struct Payload
 #[derive(Clone, Debug)]
 enum PKind { Removal(C), Despawn }
 
+/// A removal / despawn event waiting to be noticed by a poll. Polls (and deliveries they postpone) are invisible in
+/// the trace, so the spec does not place them: a reaction to the event is accepted at any later point, at most once
+/// per reactor, and the reactors that must react are checked at the event's deadline.
 #[derive(Clone, Debug)]
 struct Polled
 {
     kind: PKind,
     ent: EntId,
-    /// reactors registered when the event happened
-    must: Vec<Inst>,
-    /// entity-scoped removal reactors of an entity that was despawned (their registration died with it)
-    may: Vec<Inst>,
+    /// reactors registered when the event happened (despawn: with the registration whose handle the reaction holds)
+    must: Vec<(Inst, Option<RegId>)>,
+    /// reactors that may react although they need not: revoked since, or entity-scoped on an entity that was despawned
+    extra: Vec<Inst>,
+    delivered: Vec<Inst>,
     in_tree: bool,
+    /// deadline passed: only reactors registered later may still be told (N4)
+    closed: bool,
 }
 
 #[derive(Clone, Debug)]
@@ -195,6 +205,8 @@ enum Issued
     MutTrigger(EntId, C),
     ResTrigger(R),
     Register(Inst, Mode, Vec<MTrig>),
+    /// `On`: register, then the harness learns the new system's entity (unless created by `on`, which returns nothing)
+    OnRegister(Inst, Mode, Vec<MTrig>, bool),
     Revoke(Option<Token>),
     Kill(Option<Inst>),
     Probe,
@@ -216,6 +228,8 @@ pub struct Checker<'a>
     prog: &'a Program,
     trace: &'a [Ev],
     pos: usize,
+    /// positions of floating events read but not yet accounted for
+    floats: Vec<usize>,
     hooks: bool,
     pub verdicts: Vec<Verdict>,
     pub stats: Stats,
@@ -232,6 +246,8 @@ pub struct Checker<'a>
     polled: Vec<Polled>,
     postponed: Vec<Delivery>,
     stack: Vec<Inst>,
+    /// number of runs (including their replays) we are inside of: 0 = not inside any reaction tree
+    tree_depth: usize,
     seq: u64,
     /// current sender (issuer, run)
     sender: (u8, u32),
@@ -254,7 +270,7 @@ macro_rules! fail {
     }};
 }
 
-fn is_floating(ev: &Ev) -> bool { matches!(ev, Ev::Drop(_) | Ev::Canary(_) | Ev::Runner(..)) }
+fn is_floating(ev: &Ev) -> bool { matches!(ev, Ev::Drop(_) | Ev::Canary(_)) }
 
 impl<'a> Checker<'a>
 {
@@ -265,10 +281,10 @@ impl<'a> Checker<'a>
             once_fired: false, real: None, canary: false, revoked_keys: Vec::new(), kinds_this_tree: 0,
         }).collect();
         Checker {
-            prog, trace, pos: 0, hooks, verdicts: Vec::new(), stats: Stats::default(),
+            prog, trace, pos: 0, floats: Vec::new(), hooks, verdicts: Vec::new(), stats: Stats::default(),
             ents: Vec::new(), slots: Vec::new(), insts, regs: Vec::new(), tables: HashMap::new(),
             tokens: vec![None; prog.insts.len()], res: [0, 0], payloads: HashMap::new(), pending_immediate_drop: None,
-            polled: Vec::new(), postponed: Vec::new(), stack: Vec::new(), seq: 0, sender: (DRIVER, 0),
+            polled: Vec::new(), postponed: Vec::new(), stack: Vec::new(), tree_depth: 0, seq: 0, sender: (DRIVER, 0),
             wr_keys: [Vec::new(), Vec::new()], sigs: vec![(None, 0); 4], doomed_ents: Vec::new(), fifo: HashMap::new(),
             gc_guaranteed_this_step: false, in_direct_step: false, sys: Default::default(),
         }
@@ -276,6 +292,10 @@ impl<'a> Checker<'a>
 
     pub fn check(mut self) -> CheckResult
     {
+        if !self.hooks
+        {
+            return CheckResult { verdicts: Vec::new(), outcome: Outcome::Inconclusive("the lock-step spec needs the runner hook events".into()), stats: self.stats };
+        }
         let outcome = match self.run_all()
         {
             Ok(()) | Err(Stop::Violation) => Outcome::Ok,
@@ -287,43 +307,77 @@ impl<'a> Checker<'a>
     //---------------------------------------------------------------------------------------------------------------
     // trace cursor
 
-    fn floating(&mut self, ev: &Ev) -> Res<()>
+    /// Floating events (payload drops, state drops) happen between two structural events, while the spec makes silent
+    /// transitions (runs ending, reactors despawning themselves, postponed deliveries being skipped). Each one is accepted as
+    /// soon as some state the spec passes through accounts for it; if none did by the time the next structural event is
+    /// consumed, it is a violation.
+    fn judge_floats(&mut self, last_chance: bool) -> Res<()>
+    {
+        let mut i = 0;
+        while i < self.floats.len()
+        {
+            let fpos = self.floats[i];
+            let ev = &self.trace[fpos];
+            match self.floating(ev, last_chance, fpos)?
+            {
+                true => { self.floats.remove(i); }
+                false => { i += 1; }
+            }
+        }
+        Ok(())
+    }
+
+    /// Returns whether the floating event is accounted for in the current state; fails if not and this is the last chance.
+    fn floating(&mut self, ev: &Ev, last_chance: bool, fpos: usize) -> Res<bool>
     {
         match ev
         {
             Ev::Drop(id) =>
             {
                 let Some(p) = self.payloads.get(id).cloned() else {
+                    if !last_chance { return Ok(false); }
+                    self.pos = fpos;
                     fail!(self, "C05", "drop-unknown-payload", &[], "payload {id:#x} dropped but never sent");
                 };
-                if p.dropped { fail!(self, "C05", "drop-twice", &[], "payload {id:#x} dropped twice"); }
-                if !p.applied { fail!(self, "C05", "drop-too-early", &[], "payload {id:#x} dropped before its send command was applied"); }
+                if p.dropped { self.pos = fpos; fail!(self, "C05", "drop-twice", &[], "payload {id:#x} dropped twice"); }
+                if !p.applied
+                {
+                    if !last_chance { return Ok(false); }
+                    self.pos = fpos;
+                    fail!(self, "C05", "drop-too-early", &[], "payload {id:#x} dropped before its send command was applied");
+                }
                 for (inst, optional) in &p.unresolved
                 {
                     let t = &self.insts[*inst as usize];
                     if t.alive && !t.doomed && !*optional
                     {
+                        if !last_chance { return Ok(false); }
+                        self.pos = fpos;
                         fail!(self, "C05", "drop-too-early", &[], "payload {id:#x} dropped while a scheduled reader (instance {inst}) has yet to run");
                     }
                 }
                 self.payloads.get_mut(id).unwrap().dropped = true;
                 if self.pending_immediate_drop == Some(*id) { self.pending_immediate_drop = None; }
+                Ok(true)
             }
             Ev::Canary(i) =>
             {
-                let t = &mut self.insts[*i as usize];
+                let t = &self.insts[*i as usize];
                 if t.alive && !t.doomed
                 {
+                    if !last_chance { return Ok(false); }
+                    self.pos = fpos;
                     let persistent = !self.regs.iter().any(|r| r.inst == *i && r.refcounted);
                     if persistent { fail!(self, "C07", "persistent-despawned", &["C13", "C16"], "state of instance {i} dropped although nothing despawned it"); }
                     fail!(self, "C07", "reactor-premature-despawn", &["C13"], "state of instance {i} dropped while a trigger is still registered");
                 }
+                let t = &mut self.insts[*i as usize];
                 t.canary = true;
                 t.alive = false;
+                Ok(true)
             }
-            _ => {}
+            _ => Ok(true),
         }
-        Ok(())
     }
 
     /// Next structural event (floating events in front of it are processed).
@@ -331,10 +385,10 @@ impl<'a> Checker<'a>
     {
         while self.pos < self.trace.len() && is_floating(&self.trace[self.pos])
         {
-            let ev = &self.trace[self.pos];
-            self.floating(ev)?;
+            self.floats.push(self.pos);
             self.pos += 1;
         }
+        self.judge_floats(false)?;
         let ev = self.trace.get(self.pos);
         if let Some(Ev::Panic(msg)) = ev
         {
@@ -349,7 +403,13 @@ impl<'a> Checker<'a>
         Ok(ev)
     }
 
-    fn advance(&mut self) { self.pos += 1; }
+    /// Consumes the structural event at the cursor. Floating events that happened before it must be accounted for by now.
+    fn advance(&mut self) -> Res<()>
+    {
+        self.judge_floats(true)?;
+        self.pos += 1;
+        Ok(())
+    }
 
     fn unexpected(&mut self, want: &str) -> Res<()>
     {
@@ -405,7 +465,7 @@ impl<'a> Checker<'a>
         let mut s = Sample::default();
         match c
         {
-            Cause::Manual | Cause::Resource(_) => {}
+            Cause::Manual | Cause::Resource(_) | Cause::PolledUnknown => {}
             Cause::SysEvent(p, id) => s.s[p.idx()] = Some(*id),
             Cause::Broadcast(p, id) => s.b[p.idx()] = Some(*id),
             Cause::EntityEvent(p, id, e) => s.e[p.idx()] = Some((self.real(*e), *id)),
@@ -465,6 +525,7 @@ impl<'a> Checker<'a>
             {
                 MTrig::Tw(k) =>
                 {
+                    if let Key::Rem(c) = k { for p in self.polled.iter_mut() { if matches!(p.kind, PKind::Removal(c2) if c2 == c) { p.extra.push(inst); } } }
                     let v = self.tables.entry(k).or_default();
                     v.push((inst, reg));
                     if v.len() >= 7 { self.stats.reactors_per_key_ge7 += 1; }
@@ -472,7 +533,13 @@ impl<'a> Checker<'a>
                 }
                 MTrig::Ent(e, kind) =>
                 {
-                    if self.ents[e].alive { self.ents[e].ereg.push(EReg { kind, inst, reg }); self.regs[reg].handles += 1; }
+                    if self.ents[e].alive
+                    {
+                        self.ents[e].ereg.push(EReg { kind, inst, reg });
+                        self.regs[reg].handles += 1;
+                        // a removal that has not been polled yet may be reported to a reactor registered meanwhile (N4)
+                        if let EKind::Rem(c) = kind { for p in self.polled.iter_mut() { if matches!(p.kind, PKind::Removal(c2) if c2 == c) && p.ent == e { p.extra.push(inst); } } }
+                    }
                     else { self.stats.reg_dead_entity += 1; }
                 }
                 MTrig::Despawn(e) =>
@@ -492,7 +559,7 @@ impl<'a> Checker<'a>
     fn revoke(&mut self, inst: Inst, trigs: &[MTrig])
     {
         self.stats.revokes_applied += 1;
-        if !self.stack.is_empty() { self.stats.revoke_mid_dispatch += 1; }
+        if self.tree_depth > 0 { self.stats.revoke_mid_dispatch += 1; }
         for t in trigs
         {
             self.insts[inst as usize].revoked_keys.push(*t);
@@ -521,17 +588,42 @@ impl<'a> Checker<'a>
                         let (_, reg) = self.ents[e].watchers.remove(pos);
                         self.drop_handle(reg);
                     }
+                    // entity already gone and its event pending: if no poll has seen it yet the watcher is dropped here,
+                    // otherwise its reaction is already scheduled and will still run; either is accepted
+                    let mut dropped = Vec::new();
+                    for p in self.polled.iter_mut()
+                    {
+                        if !matches!(p.kind, PKind::Despawn) || p.ent != e { continue; }
+                        if let Some(pos) = p.must.iter().position(|(i, _)| *i == inst)
+                        {
+                            let (i, reg) = p.must.remove(pos);
+                            p.extra.push(i);
+                            if let Some(r) = reg { dropped.push(r); }
+                        }
+                    }
+                    for r in dropped { self.drop_handle(r); }
+                }
+            }
+            // a removal reactor revoked while a removal event is pending: if it was already scheduled it still runs (C06)
+            let rem = match *t { MTrig::Tw(Key::Rem(c)) => Some((None, c)), MTrig::Ent(e, EKind::Rem(c)) => Some((Some(e), c)), _ => None };
+            if let Some((ent, c)) = rem
+            {
+                for p in self.polled.iter_mut()
+                {
+                    if !matches!(p.kind, PKind::Removal(c2) if c2 == c) { continue; }
+                    if let Some(e) = ent { if p.ent != e { continue; } }
+                    if let Some(pos) = p.must.iter().position(|(i, _)| *i == inst) { p.must.remove(pos); p.extra.push(inst); }
                 }
             }
         }
     }
 
-    fn raise(&mut self, kind: PKind, ent: EntId, must: Vec<Inst>, may: Vec<Inst>)
+    fn raise(&mut self, kind: PKind, ent: EntId, must: Vec<(Inst, Option<RegId>)>, extra: Vec<Inst>)
     {
         self.stats.polled_events += 1;
-        let in_tree = !self.stack.is_empty();
+        let in_tree = self.tree_depth > 0;
         if in_tree { self.stats.polled_in_tree += 1; }
-        self.polled.push(Polled { kind, ent, must, may, in_tree });
+        self.polled.push(Polled { kind, ent, must, extra, delivered: Vec::new(), in_tree, closed: false });
     }
 
     fn despawn_ent(&mut self, e: EntId)
@@ -542,7 +634,7 @@ impl<'a> Checker<'a>
         {
             if self.ents[e].comp[c.idx()].take().is_some()
             {
-                let must: Vec<Inst> = self.tables.get(&Key::Rem(c)).map(|v| v.iter().map(|(i, _)| *i).collect()).unwrap_or_default();
+                let must: Vec<(Inst, Option<RegId>)> = self.tables.get(&Key::Rem(c)).map(|v| v.iter().map(|(i, _)| (*i, None)).collect()).unwrap_or_default();
                 let may: Vec<Inst> = self.ents[e].ereg.iter().filter(|r| r.kind == EKind::Rem(c)).map(|r| r.inst).collect();
                 self.raise(PKind::Removal(c), e, must, may);
             }
@@ -551,7 +643,8 @@ impl<'a> Checker<'a>
         for r in ereg { self.drop_handle(r.reg); }
         if !self.ents[e].watchers.is_empty()
         {
-            let must = self.ents[e].watchers.iter().map(|(i, _)| *i).collect();
+            // the pending event now owns the watchers (and their handles)
+            let must = std::mem::take(&mut self.ents[e].watchers).into_iter().map(|(i, r)| (i, Some(r))).collect();
             self.raise(PKind::Despawn, e, must, Vec::new());
         }
         self.ents[e].ewr = [None, None];
@@ -629,7 +722,7 @@ impl<'a> Checker<'a>
     fn payload_deadline(&mut self, what: &str, all: bool) -> Res<()>
     {
         // polled reactions may still run inside the command that is finishing; then process floating events
-        if !all { while self.try_window()? {} }
+        if !all { self.poll_point()?; }
         let _ = self.peek()?;
         let mut bad: Vec<u32> = self.payloads.iter().filter(|(_, p)| !p.dropped && p.applied && (all || p.unresolved.is_empty())).map(|(id, _)| *id).collect();
         bad.sort();
@@ -656,7 +749,7 @@ impl<'a> Checker<'a>
     {
         self.seq += 1;
         self.stats.deliveries += 1;
-        Delivery { target, cause, optional, holds, sender: self.sender, seq: self.seq }
+        Delivery { target, cause, optional, holds, sender: self.sender, seq: self.seq, blocked_by: 0 }
     }
 
     fn body_matches(&self, ev: &Ev, d: &Delivery) -> bool
@@ -664,133 +757,139 @@ impl<'a> Checker<'a>
         match ev { Ev::Body { inst, s, .. } => *inst == d.target && *s == self.expected_sample(&d.cause), _ => false }
     }
 
-    /// If the next body is a removal / despawn reaction of a pending polled event, handle that event. Returns true if so.
-    fn try_window(&mut self) -> Res<bool>
+    fn removal_listeners_now(&self, ent: EntId, c: C) -> Vec<Inst>
     {
-        let Some(Ev::Body { s, .. }) = self.peek()? else { return Ok(false) };
-        let mut found = None;
-        for (i, p) in self.polled.iter().enumerate()
-        {
-            let hit = match p.kind
-            {
-                PKind::Removal(c) => s.rem[c.idx()] == Some(self.real(p.ent)),
-                PKind::Despawn => s.d == Some(self.real(p.ent)),
-            };
-            if hit { found = Some(i); break; }
-        }
-        let Some(i) = found else { return Ok(false) };
-        let p = self.polled.remove(i);
-        self.open_polled(p)?;
-        Ok(true)
+        let mut now: Vec<Inst> = Vec::new();
+        if self.ents[ent].alive { now.extend(self.ents[ent].ereg.iter().filter(|r| r.kind == EKind::Rem(c)).map(|r| r.inst)); }
+        now.extend(self.tables.get(&Key::Rem(c)).map(|v| v.iter().map(|(i, _)| *i).collect::<Vec<_>>()).unwrap_or_default());
+        now
     }
 
-    fn open_polled(&mut self, p: Polled) -> Res<()>
+    fn inst_of(&self, bits: u64) -> Option<Inst>
     {
-        let mut list = Vec::new();
-        match p.kind
+        self.insts.iter().position(|t| t.real == Some(bits)).map(|i| i as Inst)
+    }
+
+    fn peek_runner(&mut self) -> Res<Option<(u8, u64)>>
+    {
+        Ok(match self.peek()? { Some(Ev::Runner(k, e)) => Some((*k, *e)), _ => None })
+    }
+
+    fn at_enter(&mut self) -> Res<bool>
+    {
+        Ok(matches!(self.peek_runner()?, Some((k, _)) if k == RK_ENTER || k == RK_ENTER_ROOT))
+    }
+
+    /// The pending removal / despawn event that accounts for a reaction of `inst` showing sample `s`, if any.
+    /// Events for which the reactor must react are served before events it merely may be told about.
+    fn find_polled(&self, inst: Inst, s: &Sample) -> Option<usize>
+    {
+        for pass in 0..2
         {
-            PKind::Removal(c) =>
+            for (i, p) in self.polled.iter().enumerate()
             {
-                self.ents[p.ent].removed_since_poll[c.idx()] = 0;
-                let mut must = p.must.clone();
-                let mut now: Vec<Inst> = Vec::new();
-                if self.ents[p.ent].alive { now.extend(self.ents[p.ent].ereg.iter().filter(|r| r.kind == EKind::Rem(c)).map(|r| r.inst)); }
-                now.extend(self.tables.get(&Key::Rem(c)).map(|v| v.iter().map(|(i, _)| *i).collect::<Vec<_>>()).unwrap_or_default());
-                for i in now
+                let hit = match p.kind
                 {
-                    let mandatory = if let Some(pos) = must.iter().position(|m| *m == i) { must.remove(pos); true } else { false };
-                    let d = self.mk(i, Cause::Rem(c, p.ent), !mandatory, None);
-                    list.push(d);
-                }
-                if !self.ents[p.ent].alive { for i in &p.may { let d = self.mk(*i, Cause::Rem(c, p.ent), true, None); list.push(d); } }
-            }
-            PKind::Despawn =>
-            {
-                let watchers = std::mem::take(&mut self.ents[p.ent].watchers);
-                for (i, reg) in watchers { let d = self.mk(i, Cause::Despawn(p.ent), false, Some(reg)); list.push(d); }
+                    PKind::Removal(c) => s.rem[c.idx()] == Some(self.real(p.ent)),
+                    PKind::Despawn => s.d == Some(self.real(p.ent)),
+                };
+                if !hit { continue; }
+                let must = !p.closed && p.must.iter().any(|(m, _)| *m == inst);
+                if pass == 0 { if must { return Some(i); } continue; }
+                // one reaction per registration: a reactor registered entity-scoped and type-wide reacts twice
+                let done = p.delivered.iter().filter(|d| **d == inst).count();
+                let eligible = p.extra.contains(&inst)
+                    || match p.kind { PKind::Removal(c) => self.removal_listeners_now(p.ent, c).iter().filter(|l| **l == inst).count() > done, PKind::Despawn => false };
+                if eligible { return Some(i); }
             }
         }
-        self.stats.polled_reactions += list.len() as u64;
+        None
+    }
+
+    /// Turns a pending event's obligation for `inst` into a delivery.
+    fn take_polled(&mut self, i: usize, inst: Inst) -> Delivery
+    {
+        self.polled[i].delivered.push(inst);
+        let (kind, ent) = (self.polled[i].kind.clone(), self.polled[i].ent);
+        let holds = self.polled[i].must.iter().find(|(m, _)| *m == inst).and_then(|(_, r)| *r);
+        if let Some(pos) = self.polled[i].must.iter().position(|(m, _)| *m == inst) { self.polled[i].must.remove(pos); }
+        else if let Some(pos) = self.polled[i].extra.iter().position(|m| *m == inst) { self.polled[i].extra.remove(pos); }
+        let cause = match kind { PKind::Removal(c) => Cause::Rem(c, ent), PKind::Despawn => Cause::Despawn(ent) };
+        self.stats.polled_reactions += 1;
         // a polled reaction is a command of its own: it is not "sent" by the run that happens to be active
         let saved = self.sender;
-        self.sender = (0xFE, self.seq as u32);
-        let r = self.process_deliveries(list);
+        self.sender = (0xFE, 0);
+        let d = self.mk(inst, cause, false, holds);
         self.sender = saved;
-        r
+        d
     }
 
-    /// Deadline for polled events: `only_in_tree` at the end of a root tree, all at a guaranteed poll.
+    /// Deadline for polled events (`only_in_tree`: the end of a root tree; otherwise a poll outside any tree): every
+    /// reactor registered since the event happened, still registered and alive, must have reacted.
     fn flush_polled(&mut self, only_in_tree: bool) -> Res<()>
     {
-        loop
+        let mut i = 0;
+        while i < self.polled.len()
         {
-            // reactions that are there to be seen first
-            while self.try_window()? {}
-            let Some(i) = self.polled.iter().position(|p| !only_in_tree || p.in_tree) else { break };
-            let p = self.polled.remove(i);
-            self.open_polled(p)?;
+            let p = self.polled[i].clone();
+            if p.closed || (only_in_tree && !p.in_tree) { i += 1; continue; }
+            for (inst, reg) in &p.must
+            {
+                let t = &self.insts[*inst as usize];
+                let still_registered = match p.kind { PKind::Removal(c) => self.removal_listeners_now(p.ent, c).contains(inst), PKind::Despawn => true };
+                if t.alive && !t.doomed && !t.busy && still_registered
+                {
+                    let ev = self.peek()?.cloned();
+                    let cause = match p.kind { PKind::Removal(c) => Cause::Rem(c, p.ent), PKind::Despawn => Cause::Despawn(p.ent) };
+                    fail!(self, "C08", "polled-missing", &["C01", "C02"], "no run of instance {inst} for {cause:?} by its deadline; next observed: {ev:?}");
+                }
+                if let Some(r) = reg { self.drop_handle(*r); self.stats.skipped_dead += 1; }
+            }
+            match p.kind
+            {
+                PKind::Removal(_) => { self.polled[i].closed = true; self.polled[i].in_tree = false; self.polled[i].must.clear(); i += 1; }
+                PKind::Despawn => { self.polled.remove(i); }
+            }
         }
         Ok(())
     }
 
-    /// Delivers the reactions of one trigger (siblings), in whatever order they are observed.
+    /// Delivers the reactions of one trigger (siblings): each is one invocation of the system-command runner, in
+    /// whatever order the implementation chose (N1). Polled reactions may be interleaved.
     fn process_deliveries(&mut self, mut list: Vec<Delivery>) -> Res<()>
     {
         let mut first = true;
-        loop
+        while !list.is_empty()
         {
-            // resolve, in order, deliveries that cannot produce a body now
-            let mut i = 0;
-            while i < list.len()
+            if self.at_enter()?
             {
-                let t = &self.insts[list[i].target as usize];
-                if !t.alive { let d = list.remove(i); self.skip(d, false); continue; }
-                if t.busy { let d = list.remove(i); self.postpone(d); continue; }
-                i += 1;
+                let before = list.len();
+                let head = list[0].seq;
+                self.invocation(Some(&mut list), None)?;
+                if first && list.len() < before && list.iter().any(|d| d.seq == head) { self.stats.sibling_reorder += 1; }
+                first = false;
+                continue;
             }
-            if list.is_empty() { return Ok(()); }
-            let ev = self.peek()?;
-            if let Some(ev) = ev
+            // no runner invocation for the remaining deliveries
+            if list.iter().all(|d| d.optional)
             {
-                if let Some(pos) = list.iter().position(|d| self.body_matches(ev, d))
-                {
-                    if pos != 0 && first { self.stats.sibling_reorder += 1; }
-                    first = false;
-                    let d = list.remove(pos);
-                    if d.optional || self.insts[d.target as usize].doomed { self.stats.optional_taken += 1; }
-                    self.run(d)?;
-                    continue;
-                }
-            }
-            if self.try_window()? { continue; }
-            // nothing observed for the remaining ones
-            if list.iter().all(|d| d.optional || self.insts[d.target as usize].doomed)
-            {
-                for d in list.drain(..) { self.stats.optional_skipped += 1; self.skip(d, false); }
+                for d in list.drain(..) { self.stats.optional_skipped += 1; self.payload_resolve(&d); }
                 return Ok(());
             }
-            let d = list.iter().find(|d| !d.optional && !self.insts[d.target as usize].doomed).unwrap().clone();
+            let d = list.iter().find(|d| !d.optional).unwrap().clone();
             return self.missing(&d);
         }
+        Ok(())
     }
 
     fn missing(&mut self, d: &Delivery) -> Res<()>
     {
         let ev = self.peek()?.cloned();
-        // same instance, different data: the run happened but saw the wrong event data
-        if let Some(Ev::Body { inst, s, .. }) = &ev
-        {
-            if *inst == d.target
-            {
-                let want = self.expected_sample(&d.cause);
-                fail!(self, "C03", "wrong-event-data", &["C12", "C05"], "instance {inst} ran for {:?} but its readers show {s:?} instead of {want:?}", d.cause);
-            }
-        }
         match d.cause
         {
-            Cause::Rem(..) | Cause::Despawn(_) => fail!(self, "C08", "polled-missing", &["C01", "C02"], "no run of instance {} for {:?}; next observed: {:?}", d.target, d.cause, ev),
-            Cause::Manual | Cause::SysEvent(..) => fail!(self, "C02", "missing-run", &["C09"], "no run of instance {} for {:?}; next observed: {:?}", d.target, d.cause, ev),
-            _ => fail!(self, "C01", "missing-reaction", &["C02", "C09"], "no run of instance {} for {:?}; next observed: {:?}", d.target, d.cause, ev),
+            Cause::Rem(..) | Cause::Despawn(_) => fail!(self, "C08", "polled-missing", &["C01", "C02"], "instance {} was not scheduled for {:?}; next observed: {:?}", d.target, d.cause, ev),
+            Cause::Manual | Cause::SysEvent(..) => fail!(self, "C02", "missing-run", &["C09"], "instance {} was not scheduled for {:?}; next observed: {:?}", d.target, d.cause, ev),
+            _ => fail!(self, "C01", "missing-reaction", &["C02", "C09"], "instance {} was not scheduled for {:?}; next observed: {:?}", d.target, d.cause, ev),
         }
     }
 
@@ -804,28 +903,213 @@ impl<'a> Checker<'a>
         if self.insts[d.target as usize].once_fired { self.stats.once_retrigger_after_fire += 1; }
     }
 
-    fn postpone(&mut self, d: Delivery)
+    fn postpone(&mut self, mut d: Delivery)
     {
+        d.blocked_by = self.insts[d.target as usize].runs;
         self.stats.postponed += 1;
         let n = self.postponed.iter().filter(|x| x.target == d.target).count() as u64 + 1;
         if n > self.stats.max_postponed_one_target { self.stats.max_postponed_one_target = n; }
         self.postponed.push(d);
     }
 
-    /// One delivery: run in-line, postpone, or skip.
+    /// One delivery: one runner invocation.
     fn deliver(&mut self, d: Delivery) -> Res<()>
     {
         self.process_deliveries(vec![d])
     }
 
-    /// The next event is the body of `d`.
-    fn run(&mut self, d: Delivery) -> Res<()>
+    /// Nested invocations at a poll point of the current invocation (they can only be polled reactions).
+    fn poll_point(&mut self) -> Res<()>
+    {
+        while self.at_enter()? { self.invocation(None, None)?; }
+        Ok(())
+    }
+
+    /// One invocation of the system-command runner, from its `Enter` event (at the cursor) to its `Exit`.
+    /// `list`: sibling deliveries one of which it may serve. `replay_for`: set in the post-run stage of an execution of
+    /// that system, where postponed deliveries for it are served. Anything else it serves is a polled reaction.
+    fn invocation(&mut self, list: Option<&mut Vec<Delivery>>, replay_for: Option<(Inst, u32)>) -> Res<()>
+    {
+        let Some((k, e)) = self.peek_runner()? else { unreachable!() };
+        self.advance()?;
+        let root = self.tree_depth == 0;
+        if (k == RK_ENTER_ROOT) != root
+        {
+            fail!(self, "C11", "tree-bookkeeping-residue", &["C02"], "a system command was entered as {} although the spec is {} a reaction tree", if k == RK_ENTER_ROOT { "the root of a new tree" } else { "nested" }, if root { "outside" } else { "inside" });
+        }
+        // entry poll (the tree counter is only incremented when a system actually runs, so reactions polled here by a
+        // root invocation are roots themselves)
+        self.poll_point()?;
+        let known = self.inst_of(e);
+        let Some((k2, e2)) = self.peek_runner()? else { return self.unexpected("outcome of the system command (run / postpone / abort)"); };
+        if e2 != e || !(k2 == RK_RUN || k2 == RK_POSTPONE || k2 == RK_ABORT) { return self.unexpected("outcome of the system command (run / postpone / abort)"); }
+        self.advance()?;
+        // candidates among the explicit deliveries
+        let pick_list = |me: &Self, list: &Vec<Delivery>, inst: Option<Inst>| -> Option<usize> {
+            match inst
+            {
+                Some(i) => list.iter().position(|d| d.target == i),
+                None => { let c: Vec<usize> = list.iter().enumerate().filter(|(_, d)| me.insts[d.target as usize].real.is_none()).map(|(i, _)| i).collect(); if c.len() == 1 { Some(c[0]) } else { None } }
+            }
+        };
+        match k2
+        {
+            RK_RUN =>
+            {
+                let Some(Ev::Body { inst, s, .. }) = self.peek()?.cloned() else { return self.unexpected("body of the system that was just started"); };
+                match self.insts[inst as usize].real
+                {
+                    Some(r) if r != e => fail!(self, "C02", "wrong-system-ran", &["C01"], "the runner started system entity {e:#x} but instance {inst} (entity {r:#x}) ran"),
+                    Some(_) => {}
+                    None => { if known.is_some() { fail!(self, "C02", "wrong-system-ran", &["C01"], "the runner started system entity {e:#x} but instance {inst} ran"); } self.insts[inst as usize].real = Some(e); }
+                }
+                // which delivery is it?
+                let mut d: Option<Delivery> = None;
+                let mut list = list;
+                if let Some(l) = list.as_deref_mut()
+                {
+                    if let Some(pos) = l.iter().position(|d| d.target == inst && self.expected_sample(&d.cause) == s) { d = Some(l.remove(pos)); }
+                }
+                if d.is_none() && replay_for.map(|r| r.0) == Some(inst)
+                {
+                    // among indistinguishable candidates prefer one that keeps per-sender FIFO satisfiable (N5 leaves the rest open)
+                    let cands: Vec<usize> = self.postponed.iter().enumerate().filter(|(_, p)| p.target == inst && self.postponed_matches(p, inst, &s)).map(|(i, _)| i).collect();
+                    let admissible = |me: &Self, i: usize| { let d = &me.postponed[i]; !me.postponed.iter().any(|o| o.sender == d.sender && o.sender.0 != 0xFE && o.target == d.target && o.seq < d.seq) };
+                    let exec = replay_for.map(|r| r.1).unwrap_or(0);
+                    // entries blocked by the most recent execution have the earliest deadline (its invocation is innermost)
+                    let _ = exec;
+                    let mut order = cands.clone();
+                    order.sort_by_key(|i| (std::cmp::Reverse(self.postponed[*i].blocked_by), !admissible(self, *i), self.postponed[*i].seq));
+                    let hit = order.first().copied();
+                    if let Some(i) = hit
+                    {
+                        let mut p = self.postponed.remove(i);
+                        if p.cause == Cause::PolledUnknown
+                        {
+                            let Some(pi) = self.find_polled(inst, &s) else { unreachable!() };
+                            let seq = p.seq;
+                            p = self.take_polled(pi, inst);
+                            p.seq = seq;
+                        }
+                        self.stats.replayed += 1;
+                        d = Some(p);
+                    }
+                }
+                if d.is_none() { if let Some(pi) = self.find_polled(inst, &s) { d = Some(self.take_polled(pi, inst)); } }
+                let Some(d) = d else
+                {
+                    // same instance expected, different data: the run happened but saw the wrong event data
+                    let pending: Option<Cause> = list.as_deref().and_then(|l| l.iter().find(|d| d.target == inst).map(|d| d.cause.clone()))
+                        .or_else(|| if replay_for.map(|r| r.0) == Some(inst) { self.postponed.iter().find(|p| p.target == inst).map(|p| p.cause.clone()) } else { None });
+                    if let Some(c) = pending
+                    {
+                        let want = self.expected_sample(&c);
+                        fail!(self, "C03", "wrong-event-data", &["C12", "C05"], "instance {inst} ran for {c:?} (or another pending delivery) but its readers show {s:?}; expected e.g. {want:?}");
+                    }
+                    return self.unexpected_body(inst, s, "a delivery that accounts for this run");
+                };
+                let t = &self.insts[inst as usize];
+                if t.busy { fail!(self, "C09", "postponed-ran-too-early", &["C02"], "instance {inst} ran for {:?} while it is already executing", d.cause); }
+                if !t.alive { fail!(self, "C18", "ran-dead-target", &["C07", "C02"], "instance {inst} ran for {:?} after it was despawned", d.cause); }
+                if d.optional || t.doomed { self.stats.optional_taken += 1; }
+                self.tree_depth += 1;
+                if root { self.stats.roots += 1; for t in self.insts.iter_mut() { t.kinds_this_tree = 0; } }
+                self.run(d, e, root)?;
+            }
+            RK_POSTPONE =>
+            {
+                // the target is executing: its callback is taken
+                let inst = match known { Some(i) => Some(i), None => None };
+                let mut d = None;
+                let mut list = list;
+                if let Some(l) = list.as_deref_mut() { if let Some(pos) = pick_list(self, l, inst) { d = Some(l.remove(pos)); } }
+                let d = match (d, inst)
+                {
+                    (Some(d), _) => d,
+                    (None, Some(i)) => { let saved = self.sender; self.sender = (0xFE, 0); let d = self.mk(i, Cause::PolledUnknown, false, None); self.sender = saved; d }
+                    (None, None) => return bail("a system with an entity unknown to the harness was postponed; cannot attribute it"),
+                };
+                if self.insts[d.target as usize].real.is_none() { self.insts[d.target as usize].real = Some(e); }
+                let t = &self.insts[d.target as usize];
+                if !t.busy
+                {
+                    fail!(self, "C02", "postponed-although-idle", &["C09", "C11"], "delivery {:?} to instance {} was postponed although that system is not executing", d.cause, d.target);
+                }
+                self.postpone(d);
+            }
+            _ =>
+            {
+                // aborted: the target does not exist (any more)
+                let inst = known;
+                let mut d = None;
+                let mut list = list;
+                if let Some(l) = list.as_deref_mut() { if let Some(pos) = pick_list(self, l, inst) { d = Some(l.remove(pos)); } }
+                if d.is_none()
+                {
+                    if let (Some((r, _)), Some(i)) = (replay_for, inst)
+                    {
+                        if r == i { if let Some(pos) = self.postponed.iter().position(|p| p.target == i) { d = Some(self.postponed.remove(pos)); self.stats.skipped_dead_postponed += 1; } }
+                    }
+                }
+                if let Some(d) = &d { if self.insts[d.target as usize].real.is_none() { self.insts[d.target as usize].real = Some(e); } }
+                let target = d.as_ref().map(|d| d.target).or(inst);
+                if let Some(i) = target
+                {
+                    let t = &mut self.insts[i as usize];
+                    // a ref-counted system with no trigger left is collected even while it is executing
+                    if t.alive && t.doomed { t.alive = false; }
+                    let t = &self.insts[i as usize];
+                    if t.alive
+                    {
+                        fail!(self, "C02", "aborted-although-alive", &["C07", "C13"], "a delivery to instance {i} was dropped as if the system were gone, but nothing despawned it{}", if t.busy { " (it is executing)" } else { "" });
+                    }
+                }
+                if let Some(d) = d { self.skip(d, false); }
+                // the abort path polls as well
+                self.poll_point()?;
+            }
+        }
+        // end of the invocation
+        if k2 != RK_RUN { self.expect_runner(RK_EXIT, e, "return of the system command runner")?; }
+        Ok(())
+    }
+
+    fn expect_runner(&mut self, k: u8, e: u64, what: &str) -> Res<()>
+    {
+        match self.peek_runner()?
+        {
+            Some((k2, e2)) if k2 == k && e2 == e => self.advance(),
+            _ => self.unexpected(what),
+        }
+    }
+
+    fn end_invocation(&mut self, root: bool) -> Res<()>
+    {
+        self.tree_depth -= 1;
+        if root
+        {
+            self.flush_polled(true)?;
+            if let Some(p) = self.postponed.first()
+            {
+                let p = p.clone();
+                fail!(self, "C02", "postponed-never-resolved", &["C11"], "delivery {:?} to instance {} still postponed at the end of the tree", p.cause, p.target);
+            }
+        }
+        Ok(())
+    }
+
+    fn postponed_matches(&self, p: &Delivery, inst: Inst, s: &Sample) -> bool
+    {
+        if p.cause == Cause::PolledUnknown { return (s.rem.iter().flatten().next().is_some() || s.d.is_some()) && self.find_polled(inst, s).is_some(); }
+        self.expected_sample(&p.cause) == *s
+    }
+
+    /// The body of `d` is at the cursor; `e` is the system entity, `root` whether this invocation started the tree.
+    fn run(&mut self, d: Delivery, e: u64, root: bool) -> Res<()>
     {
         let Some(Ev::Body { inst, n, cap, s }) = self.peek()?.cloned() else { unreachable!() };
-        self.advance();
+        self.advance()?;
         self.stats.bodies += 1;
-        let root = self.stack.is_empty();
-        if root { self.stats.roots += 1; for t in self.insts.iter_mut() { t.kinds_this_tree = 0; } }
         let ti = inst as usize;
         if s.second_take { fail!(self, "C04", "second-take-succeeded", &[], "instance {inst} took a system event payload twice"); }
         self.insts[ti].runs += 1;
@@ -834,7 +1118,9 @@ impl<'a> Checker<'a>
             fail!(self, "C13", "local-reset", &["C17"], "instance {inst}: run #{} sees Local={n} captured={cap}", self.insts[ti].runs);
         }
         // per-sender FIFO (C12)
-        if d.sender.0 != 0xFE
+        // (only deliveries that carry a unique payload id are distinguishable; manual runs and trigger reactions of one
+        // kind are interchangeable, so their relative order is not observable)
+        if d.sender.0 != 0xFE && d.cause.payload().is_some()
         {
             self.stats.fifo_pairs_checked += 1;
             let last = self.fifo.entry((d.sender, d.target)).or_insert(0);
@@ -864,15 +1150,16 @@ impl<'a> Checker<'a>
         let (issued, err) = self.issue_script(script, inst, n, excl)?;
         match self.peek()?
         {
-            Some(Ev::BodyEnd { inst: i2, n: n2, err: e2 }) if *i2 == inst && *n2 == n && *e2 == err => self.advance(),
+            Some(Ev::BodyEnd { inst: i2, n: n2, err: e2 }) if *i2 == inst && *n2 == n && *e2 == err => self.advance()?,
             _ => { self.unexpected(&format!("end of body of instance {inst} run {n}"))?; }
         }
         if err { self.stats.err_returns += 1; }
+        // a despawn reaction's handle is released by the cleanup that runs between the body and its commands
+        if let Some(reg) = d.holds { self.drop_handle(reg); }
         self.apply_issued(issued)?;
         self.sender = saved_sender;
         self.stack.pop();
         self.insts[ti].busy = false;
-        if let Some(reg) = d.holds { self.drop_handle(reg); }
         if def.origin == Origin::Once
         {
             // a one-off reactor despawns itself and revokes its triggers after its first run
@@ -881,58 +1168,37 @@ impl<'a> Checker<'a>
             self.stats.once_fired += 1;
             if let Some(tok) = self.tokens[ti].clone() { self.revoke(tok.inst, &tok.trigs); }
         }
-        self.replay(inst)?;
-        if root
-        {
-            self.flush_polled(true)?;
-            if let Some(p) = self.postponed.first()
-            {
-                let p = p.clone();
-                fail!(self, "C02", "postponed-never-resolved", &["C11"], "delivery {:?} to instance {} still postponed at the end of the tree", p.cause, p.target);
-            }
-        }
-        Ok(())
-    }
-
-    /// Postponed deliveries for `inst` run now that its execution (and everything it queued) is complete.
-    fn replay(&mut self, inst: Inst) -> Res<()>
-    {
+        // post-run stage: polled reactions, then postponed deliveries for this system, until the runner returns
         loop
         {
-            let cands: Vec<usize> = self.postponed.iter().enumerate().filter(|(_, d)| d.target == inst).map(|(i, _)| i).collect();
-            if cands.is_empty() { return Ok(()); }
-            if !self.insts[inst as usize].alive
+            match self.peek_runner()?
             {
-                for i in cands.into_iter().rev() { let d = self.postponed.remove(i); self.skip(d, true); }
-                return Ok(());
-            }
-            let ev = self.peek()?;
-            let hit = ev.and_then(|ev| cands.iter().copied().find(|i| self.body_matches(ev, &self.postponed[*i])));
-            if let Some(i) = hit
-            {
-                let d = self.postponed.remove(i);
-                let newest = self.seq;
-                self.run(d)?;
-                if self.postponed.iter().any(|x| x.target == inst && x.seq > newest) { self.stats.nested_replay += 1; }
-                continue;
-            }
-            if self.try_window()? { continue; }
-            if self.insts[inst as usize].doomed || cands.iter().all(|i| self.postponed[*i].optional)
-            {
-                for i in cands.into_iter().rev() { let d = self.postponed.remove(i); self.stats.optional_skipped += 1; self.skip(d, true); }
-                return Ok(());
-            }
-            let d = self.postponed[cands[0]].clone();
-            let ev = self.peek()?.cloned();
-            if let Some(Ev::Body { inst: i2, s, .. }) = &ev
-            {
-                if *i2 == inst
+                Some((k, _)) if k == RK_ENTER || k == RK_ENTER_ROOT =>
                 {
-                    fail!(self, "C03", "wrong-event-data", &["C12", "C05"], "postponed run of instance {inst}: readers show {s:?}, which matches none of its pending deliveries (first pending: {:?})", d.cause);
+                    let before = self.seq;
+                    self.invocation(None, Some((inst, n)))?;
+                    if self.postponed.iter().any(|x| x.target == inst && x.seq > before && x.blocked_by != n) { self.stats.nested_replay += 1; }
                 }
+                Some((k, _)) if k == RK_DISCARD => return bail("a leftover postponed command was discarded (only reachable with injected storage faults)"),
+                Some((k, e2)) if k == RK_ROOT_EXIT && e2 == e =>
+                {
+                    if !root { fail!(self, "C11", "tree-bookkeeping-residue", &["C02"], "a nested system command reset the tree bookkeeping"); }
+                    self.advance()?;
+                }
+                Some((k, e2)) if k == RK_EXIT && e2 == e => { self.advance()?; break; }
+                _ => { self.unexpected(&format!("return of the runner for instance {inst}"))?; }
             }
-            fail!(self, "C09", "postponed-ran-too-late", &["C02"], "delivery {:?} postponed for instance {inst} did not run when its execution completed; next observed: {ev:?}", d.cause);
         }
+        // everything that was postponed because of this execution must have run by now (C02, C09)
+        if let Some(p) = self.postponed.iter().find(|p| p.target == inst && p.blocked_by == n)
+        {
+            let p = p.clone();
+            if self.insts[ti].alive && !self.insts[ti].doomed
+            {
+                fail!(self, "C09", "postponed-ran-too-late", &["C02"], "delivery {:?} postponed for instance {inst} did not run when the execution that blocked it completed", p.cause);
+            }
+        }
+        self.end_invocation(root)
     }
 
     fn ewr_local(&mut self, inst: Inst, k: u8, d: &Delivery) -> Res<()>
@@ -944,7 +1210,7 @@ impl<'a> Checker<'a>
             _ => fail!(self, "C16", "ewr-ran-without-entity", &[], "entity world reactor {inst} ran for {:?}", d.cause),
         };
         let Some(Ev::EwrLocal { inst: i2, src: s2, val, src_alive }) = self.peek()?.cloned() else { return self.unexpected("entity-local observation"); };
-        self.advance();
+        self.advance()?;
         if i2 != inst || s2 != self.real(src)
         {
             fail!(self, "C16", "ewr-wrong-local", &["C03"], "entity world reactor {inst}: EntityLocal names entity {s2:#x}, the event came from {:#x}", self.real(src));
@@ -971,7 +1237,7 @@ impl<'a> Checker<'a>
     {
         match self.peek()?
         {
-            Some(Ev::InstEntity { inst: i2, e }) if *i2 == inst => { self.insts[inst as usize].real = Some(*e); self.advance(); Ok(()) }
+            Some(Ev::InstEntity { inst: i2, e }) if *i2 == inst => { self.insts[inst as usize].real = Some(*e); self.advance()?; Ok(()) }
             _ => self.unexpected("instance entity announcement"),
         }
     }
@@ -983,7 +1249,7 @@ impl<'a> Checker<'a>
             Some(Ev::SetRet { uid, old }) if *uid == u =>
             {
                 if *old != want { fail!(self, "C14", "accessor-return", &[], "{what} returned {old:?}, expected {want:?}"); }
-                self.advance();
+                self.advance()?;
                 Ok(())
             }
             _ => self.unexpected("accessor return value"),
@@ -1000,7 +1266,7 @@ impl<'a> Checker<'a>
                 if let Op::Now(w) = op
                 {
                     let u = uid(issuer, run, idx);
-                    match self.peek()? { Some(Ev::Now(x)) if *x == u => self.advance(), _ => { self.unexpected("immediate op")?; } }
+                    match self.peek()? { Some(Ev::Now(x)) if *x == u => self.advance()?, _ => { self.unexpected("immediate op")?; } }
                     self.exec_wop(w, u)?;
                     self.expect_tolerant(|e| matches!(e, Ev::NowEnd(x) if *x == u), "end of immediate op")?;
                 }
@@ -1088,13 +1354,8 @@ impl<'a> Checker<'a>
                 self.insts[i].created = true;
                 self.insts[i].alive = true;
                 let t: Vec<MTrig> = trigs.iter().take(crate::harness::MAX_BUNDLE).map(|t| self.resolve(t)).collect();
-                match mode
-                {
-                    Mode::Persistent => { self.insts[i].known = true; self.inst_entity_event(*inst)?; }
-                    Mode::Revokable => { self.insts[i].known = true; self.inst_entity_event(*inst)?; self.tokens[i] = Some(Token { inst: *inst, trigs: t.clone() }); }
-                    Mode::Cleanup => {}
-                }
-                Issued::Register(*inst, *mode, t)
+                if *mode == Mode::Revokable { self.tokens[i] = Some(Token { inst: *inst, trigs: t.clone() }); }
+                Issued::OnRegister(*inst, *mode, t, *mode != Mode::Cleanup)
             }
             Op::Once { inst, trigs } =>
             {
@@ -1135,10 +1396,10 @@ impl<'a> Checker<'a>
         {
             match self.peek()?
             {
-                Some(ev) if pred(ev) => { self.advance(); return Ok(()); }
+                Some(ev) if pred(ev) => { self.advance()?; return Ok(()); }
                 _ => {}
             }
-            if self.try_window()? { continue; }
+            if self.at_enter()? { self.invocation(None, None)?; continue; }
             return self.unexpected(what);
         }
     }
@@ -1150,8 +1411,9 @@ impl<'a> Checker<'a>
             self.expect_tolerant(|e| matches!(e, Ev::Apply(x) if *x == u), &format!("application of op {u:#x}"))?;
             self.stats.applies += 1;
             self.apply(u, is)?;
+            self.expect_tolerant(|e| matches!(e, Ev::ApplyEnd(x) if *x == u), &format!("end of op {u:#x}"))?;
             // a top-level command has completed together with every tree it started
-            if self.stack.is_empty() { self.payload_deadline("the end of the top-level command that sent it", false)?; }
+            if self.tree_depth == 0 { self.payload_deadline("the end of the top-level command that sent it", false)?; }
         }
         Ok(())
     }
@@ -1203,8 +1465,7 @@ impl<'a> Checker<'a>
             self.ents[e].comp[c.idx()] = None;
             self.ents[e].removed_since_poll[c.idx()] += 1;
             if self.ents[e].removed_since_poll[c.idx()] >= 2 { self.stats.removal_reinsert_removal += 1; }
-            let mut must: Vec<Inst> = self.ents[e].ereg.iter().filter(|r| r.kind == EKind::Rem(c)).map(|r| r.inst).collect();
-            must.extend(self.tables.get(&Key::Rem(c)).map(|v| v.iter().map(|(i, _)| *i).collect::<Vec<_>>()).unwrap_or_default());
+            let must: Vec<(Inst, Option<RegId>)> = self.removal_listeners_now(e, c).into_iter().map(|i| (i, None)).collect();
             self.raise(PKind::Removal(c), e, must, Vec::new());
         }
         Ok(())
@@ -1264,6 +1525,11 @@ impl<'a> Checker<'a>
             Issued::DespawnRec(e, ex) => { if ex { self.despawn_rec(e); } }
             Issued::MutTrigger(e, c) => self.do_mutation_trigger(e, c)?,
             Issued::Register(i, mode, trigs) => self.register(i, mode, &trigs),
+            Issued::OnRegister(i, mode, trigs, publish) =>
+            {
+                self.register(i, mode, &trigs);
+                if publish { self.inst_entity_event(i)?; self.insts[i as usize].known = true; }
+            }
             Issued::Revoke(Some(tok)) => self.revoke(tok.inst, &tok.trigs),
             Issued::Revoke(None) => {}
             Issued::Kill(Some(i)) => self.kill_inst(i),
@@ -1275,7 +1541,7 @@ impl<'a> Checker<'a>
                     Some(Ev::Probe { uid, s }) if *uid == u =>
                     {
                         if !s.is_empty() { let s = s.clone(); fail!(self, "C04", "probe-saw-data", &[], "probe {u:#x} queued by a system observed event data {s:?}"); }
-                        self.advance();
+                        self.advance()?;
                     }
                     _ => self.unexpected("probe observation")?,
                 }
@@ -1330,7 +1596,7 @@ impl<'a> Checker<'a>
             Some(Ev::Kept { uid, n: n2 }) if *uid == u =>
             {
                 if *n2 != n { return Err(Stop::Bail(Bail(format!("harness and spec disagree on world-reactor bookkeeping at {u:#x}: {n2} vs {n}")))); }
-                self.advance();
+                self.advance()?;
                 Ok(())
             }
             _ => self.unexpected("world reactor wrapper"),
@@ -1349,7 +1615,7 @@ impl<'a> Checker<'a>
                 if self.ents[cur].alive { return Ok(()); }
                 let Some(Ev::Spawned { slot: s2, e }) = self.peek()?.cloned() else { return self.unexpected("spawn announcement"); };
                 if s2 != *s { return self.unexpected("spawn announcement for the slot"); }
-                self.advance();
+                self.advance()?;
                 self.stats.slot_respawn += 1;
                 let id = self.new_ent(e);
                 self.slots[*s as usize] = id;
@@ -1362,7 +1628,14 @@ impl<'a> Checker<'a>
             WOp::TriggerMutation(s, c) => { let e = slot(self, *s); self.do_mutation_trigger(e, *c)?; }
             WOp::Insert(s, c, v) => { let e = slot(self, *s); let ex = self.ents[e].alive; self.do_insert(e, *c, *v, ex)?; }
             WOp::Gc => self.guaranteed_gc(),
-            WOp::Poll => { self.stats.guaranteed_poll += 1; self.flush_polled(false)?; }
+            WOp::Poll =>
+            {
+                self.stats.guaranteed_poll += 1;
+                // inside a tree the reactions may be postponed (invisibly) until busy ancestors finish: the deadline is the tree's end
+                // (a poll inside a tree guarantees nothing new: reactions may already be queued behind the current one, or get postponed)
+                if self.tree_depth > 0 { self.poll_point()?; }
+                else { self.poll_point()?; self.flush_polled(false)?; }
+            }
             WOp::Flush => {}
             WOp::KillInst(i) => { if self.insts[*i as usize].known { self.kill_inst(*i); } }
             WOp::SysEvent(i, p) => { if self.insts[*i as usize].known { self.payload_issue(u); self.do_sys_event(*i, *p, u)?; } }
@@ -1431,7 +1704,7 @@ impl<'a> Checker<'a>
         {
             let Some(Ev::Spawned { slot, e }) = self.peek()?.cloned() else { return self.unexpected("slot spawn"); };
             if slot as usize != s { return self.unexpected("slot spawn in order"); }
-            self.advance();
+            self.advance()?;
             let id = self.new_ent(e);
             self.slots.push(id);
             self.ents[id].comp = [*a, *b];
@@ -1455,7 +1728,7 @@ impl<'a> Checker<'a>
         let prog: &'a Program = self.prog;
         for (i, step) in prog.steps.iter().enumerate()
         {
-            match self.peek()? { Some(Ev::StepBegin(x)) if *x == i => self.advance(), _ => { self.unexpected("step begin")?; } }
+            match self.peek()? { Some(Ev::StepBegin(x)) if *x == i => self.advance()?, _ => { self.unexpected("step begin")?; } }
             self.gc_guaranteed_this_step = false;
             if !self.doomed_ents.is_empty() && !matches!(step, Step::Direct(WOp::Gc) | Step::Direct(WOp::SigClone(_)) | Step::Direct(WOp::SigDrop(_)) | Step::Direct(WOp::SigPrepare(..)) | Step::Direct(WOp::Reparent(..)) | Step::Update)
             {
@@ -1467,7 +1740,7 @@ impl<'a> Checker<'a>
                 Step::Direct(w) =>
                 {
                     let u = uid(DRIVER, i as u32, 0);
-                    match self.peek()? { Some(Ev::Now(x)) if *x == u => self.advance(), _ => { self.unexpected("direct step")?; } }
+                    match self.peek()? { Some(Ev::Now(x)) if *x == u => self.advance()?, _ => { self.unexpected("direct step")?; } }
                     self.sender = (DRIVER, i as u32);
                     self.in_direct_step = true;
                     let r = self.exec_wop(w, u);
@@ -1481,9 +1754,11 @@ impl<'a> Checker<'a>
             if !self.stack.is_empty() || !self.postponed.is_empty() { fail!(self, "C02", "postponed-never-resolved", &["C11"], "work outstanding at the end of step {i}"); }
             self.payload_deadline("the end of the step", true)?;
             let Some(Ev::Post(post)) = self.peek()?.cloned() else { return self.unexpected("post-step observation"); };
-            self.advance();
+            self.advance()?;
             self.check_post(&post, i)?;
         }
+        let _ = self.peek()?;
+        self.judge_floats(true)?;
         Ok(())
     }
 
@@ -1498,6 +1773,7 @@ impl<'a> Checker<'a>
             if markers { me.expect_tolerant(|e| matches!(e, Ev::LastPollBegin), "Last: before the plugin's systems")?; }
             me.guaranteed_gc();
             me.stats.guaranteed_poll += 1;
+            me.poll_point()?;
             me.flush_polled(false)?;
             if markers { me.expect_tolerant(|e| matches!(e, Ev::LastPollEnd), "Last: after the plugin's systems")?; }
             Ok(())
@@ -1608,10 +1884,12 @@ impl<'a> Checker<'a>
             {
                 fail!(self, "C01", "table-size-mismatch", &["C06", "C15", "C16"], "registration tables hold {} type-wide / {} entity-scoped entries, expected {tw} / {ent} (step {step})", s.tw_entries, s.entity_entries);
             }
-            let watch_lo: usize = self.ents.iter().map(|e| e.watchers.len()).sum();
-            if s.despawn_entries != watch_lo
+            // watchers of despawned entities stay in the table until a poll sees the despawn (polls are not observable)
+            let watch_lo: usize = self.ents.iter().map(|e| e.watchers.len()).sum::<usize>();
+            let watch_hi: usize = watch_lo + self.polled.iter().filter(|p| matches!(p.kind, PKind::Despawn)).map(|p| p.must.len()).sum::<usize>();
+            if s.despawn_entries < watch_lo || s.despawn_entries > watch_hi
             {
-                fail!(self, "C08", "despawn-table-mismatch", &["C06", "C07"], "despawn table holds {} entries, expected {watch_lo} (step {step})", s.despawn_entries);
+                fail!(self, "C08", "despawn-table-mismatch", &["C06", "C07"], "despawn table holds {} entries, expected {watch_lo}..={watch_hi} (step {step})", s.despawn_entries);
             }
         }
         Ok(())
